@@ -53,8 +53,7 @@ func (f *IntegerLength) Call(s *slip.Scope, args slip.List, depth int) (result s
 	case *slip.Bignum:
 		bi := (*big.Int)(ta)
 		if bi.Sign() < 0 {
-			bi = bi.Add(bi, big.NewInt(1))
-			bi = bi.Neg(bi)
+			bi = new(big.Int).Not(bi) // -n - 1, the argument is left as it is
 		}
 		result = slip.Fixnum(bi.BitLen())
 	default:
